@@ -69,13 +69,17 @@ def _pick(draw, seq):
 def _delay(draw, n, exact=False):
     """Delay q in samples (tt = q*dt/2): zero, whole (odd -> tt an odd multiple of dt/2), fractional."""
     top = 2 * n - 1
-    kinds = ["zero", "int", "int", "dyfrac"] if exact else ["zero", "int", "int", "frac", "frac", "frac", "dyfrac", "edge"]
+    kinds = ["zero", "int", "int", "dyfrac"] if exact else ["zero", "int", "int", "frac", "frac", "frac", "dyfrac", "edge",
+                                                              "near"]
     kind = draw(st.sampled_from(kinds))
     if kind == "zero":
         return 0.0
     small = draw(st.booleans())  # overlapping waves are the interesting half
     if kind == "int":
         return float(draw(st.integers(1, min(top, 12) if small else top)))
+    if kind == "near":  # a whole number of samples up to rounding: exercises the bracket of the margin filter
+        m = float(draw(st.integers(1, min(top, 12) if small else top)))
+        return float(np.nextafter(m, m + 1.0 if draw(st.booleans()) else 0.0))
     m = draw(st.integers(0, min(top - 1, 12) if small else top - 1))
     if kind == "frac":
         return m + draw(st.floats(1e-3, 0.999, allow_nan=False))
@@ -357,13 +361,13 @@ _OPTS = ["opt=%s%s%s" % (a, b, c) for a in "NA" for b in "Tt" for c in "Ss"]
 @clause(CLAUSES, "definition", _cases(), quick=400, thorough=2000,
         rule="records of all kinds (n 3..412, float/int/list), dt log-uniform/repo rates/dyadic, 1-5 travel times as "
              "scalar/list/tuple/ndarray with delay 2tt/dt in {0, whole (odd and even), m+U(0,1), m+dyadic fraction, "
-             "m+/-10^-3..-8}, reductions default/scalar/ndarray, nodal in {T,F}; non-trivial = non-zero record and "
+             "m+/-10^-3..-8, m+/-1ulp}, reductions default/scalar/ndarray, nodal in {T,F}; non-trivial = non-zero record and "
              ">= 1 fractional delay",
         oracle="reference model: long-double blend f*a[k-m-1]+(1-f)*a[k-m], up_red*a -/+ down_red*delayed, trapezoid, "
                "v|v|/2 for calc_surface_energy and get_time_shift_motions; equality of the acceleration on dyadic cases, "
                "otherwise the derived eps bounds; near-whole delays bracketed",
         require={"red=array": 0.30, "delay=frac": 0.30, "delay=int": 0.25, "delay=zero": 0.10, "antinodal": 0.25,
-                 "nodal": 0.25, "delay=odd": 0.10},
+                 "nodal": 0.25, "delay=odd": 0.10, "delay=amb": 0.03},
         min_nontrivial=0.30)
 def definition(case, ctx):
     su = _Setup(case, ctx)
